@@ -83,10 +83,13 @@ type world struct {
 	expAt map[string]time.Time
 	// last value written per key (for writes that deliberately keep the value)
 	lastVal map[string]string
+	// cancellations tied to the next mutation of a key (C07)
+	beforeMut map[string][]func()
+	afterMut  map[string][]func()
 }
 
 func New(c *sim.Case) (sim.World, error) {
-	return &world{c: c, mode: c.Mode, allVers: map[string]string{}, states: map[string][]keyState{}, lastMutRet: map[string]time.Time{}, expAt: map[string]time.Time{}, lastVal: map[string]string{}}, nil
+	return &world{c: c, mode: c.Mode, allVers: map[string]string{}, states: map[string][]keyState{}, lastMutRet: map[string]time.Time{}, expAt: map[string]time.Time{}, lastVal: map[string]string{}, beforeMut: map[string][]func(){}, afterMut: map[string][]func(){}}, nil
 }
 
 func (w *world) prop() string { return w.c.Prop }
@@ -195,9 +198,24 @@ func (ts *taskState) pickVer(key string, n int64) string {
 	return fmt.Sprintf("01BOGUS%s%04d", strings.ToUpper(ts.name), ts.bogus)
 }
 
+// FarExpiry values of Op.D: absolute "practically never" instants that do not
+// fit a duration (more than 292 years ahead).
+const (
+	FarExpiry2500 = int64(1)<<62 + 1
+	FarExpiry9999 = int64(1)<<62 + 2
+)
+
 func expOf(d int64, now time.Time) *time.Time {
 	if d == 0 {
 		return nil
+	}
+	switch d {
+	case FarExpiry2500:
+		t := time.Date(2500, 1, 1, 0, 0, 0, 0, time.UTC)
+		return &t
+	case FarExpiry9999:
+		t := time.Date(9999, 12, 31, 23, 59, 59, 0, time.UTC)
+		return &t
 	}
 	t := now.Add(time.Duration(d))
 	return &t
@@ -259,6 +277,10 @@ func (w *world) doOp(ctx context.Context, ts *taskState, op sim.Op, i int) {
 		// the mutation may take effect at any moment from now on
 		for _, k := range split(op.S) {
 			w.states[k] = append(w.states[k], keyState{present: op.K != "del", a: call, b: 1 << 62, pending: true, at: t0})
+			for _, f := range w.beforeMut[k] {
+				f()
+			}
+			delete(w.beforeMut, k)
 		}
 	}
 	switch op.K {
@@ -464,6 +486,10 @@ func (w *world) doOp(ctx context.Context, ts *taskState, op sim.Op, i int) {
 		for _, k := range split(op.S) {
 			w.dropPending(k) // no-op if the mutation succeeded (finalised above)
 			w.lastMutRet[k] = now
+			for _, f := range w.afterMut[k] {
+				f()
+			}
+			delete(w.afterMut, k)
 		}
 		w.mutTok.Unlock()
 	}
@@ -581,7 +607,31 @@ func (w *world) doWait(ctx context.Context, ts *taskState, op sim.Op, i int, seq
 		cancel()
 		ws.cancelAt = time.Now()
 		ws.cancelSt = e.Stamp()
-	case op.E > 0 && op.E < 1000:
+	case op.E == 998 || op.E == 999:
+		// cancelled exactly when somebody mutates the key (before / right after)
+		f := func() {
+			if ws.cancelAt.IsZero() {
+				ws.cancelAt = time.Now()
+				ws.cancelSt = e.Stamp()
+			}
+			e.Probe("cancel_at_mutation")
+			cancel()
+		}
+		if op.E == 999 {
+			w.beforeMut[key] = append(w.beforeMut[key], f)
+		} else {
+			w.afterMut[key] = append(w.afterMut[key], f)
+		}
+		// safety net: if nobody mutates the key any more, give up after 5s
+		e.Spawn(fmt.Sprintf("%s.c%d", ts.name, i), func() {
+			zsimrt.Sleep("canceller:sleep", 5*time.Second)
+			if ws.cancelAt.IsZero() {
+				ws.cancelAt = time.Now()
+				ws.cancelSt = e.Stamp()
+			}
+			cancel()
+		}, nil)
+	case op.E > 0 && op.E < 998:
 		n := int(op.E)
 		e.Spawn(fmt.Sprintf("%s.c%d", ts.name, i), func() {
 			for k := 0; k < n; k++ {
